@@ -550,3 +550,140 @@ Proof.
   exists r. split; [exact Er|].
   exact (louvain_fit_core fuel kfuel kind res tol_opt tol_agg n_agg m fb index p r Hp Er).
 Qed.
+
+(** * 4. tol_optimization = 0 in EXACT arithmetic
+    Every pass that does not stop the loop strictly increases the objective, which takes at most
+    k^n values on the labellings of n nodes with labels < k: the loop returns within k^n + 1 passes.
+    (This is a statement about the exact-rational model only: in the float32 kernel a "gain" can be
+    rounding noise, known finding D32; the bound is astronomically large and only meant as a statement.) *)
+
+Fixpoint all_labelings (n k : nat) : list (list nat) :=
+  match n with
+  | O => [[]]
+  | S m => flat_map (fun l => map (fun c => c :: l) (seq 0 k)) (all_labelings m k)
+  end.
+
+Lemma all_labelings_In k l : Forall (fun c => (c < k)%nat) l -> In l (all_labelings (length l) k).
+Proof.
+  induction l as [|c l IH]; intros H; simpl; [left; reflexivity|].
+  apply Forall_cons_iff in H. destruct H as [Hc Hl].
+  apply in_flat_map. exists l. split; [apply IH; exact Hl|].
+  apply in_map_iff. exists c. split; [reflexivity|]. apply in_seq. lia.
+Qed.
+
+Lemma all_labelings_length n k : length (all_labelings n k) = (k ^ n)%nat.
+Proof.
+  induction n as [|n IH]; [reflexivity|]. cbn [all_labelings Nat.pow]. rewrite <- IH.
+  generalize (all_labelings n k). intros L. induction L as [|l L IHL]; simpl; [lia|].
+  rewrite app_length, map_length, seq_length, IHL. lia.
+Qed.
+
+Lemma filter_length_le {A} (p q : A -> bool) l :
+  (forall v, p v = true -> q v = true) -> (length (filter p l) <= length (filter q l))%nat.
+Proof.
+  intros H. induction l as [|a l IH]; simpl; [lia|].
+  destruct (p a) eqn:Ep; [rewrite (H a Ep); simpl; lia|]. destruct (q a); simpl; lia.
+Qed.
+
+Lemma filter_length_all {A} (p : A -> bool) l : (length (filter p l) <= length l)%nat.
+Proof. induction l as [|a l IH]; simpl; [lia|]. destruct (p a); simpl; lia. Qed.
+
+Lemma filter_length_lt {A} (p q : A -> bool) l y :
+  (forall v, p v = true -> q v = true) -> In y l -> q y = true -> p y = false ->
+  (length (filter p l) < length (filter q l))%nat.
+Proof.
+  intros H Hin Hq Hp. induction l as [|a l IH]; [destruct Hin|]. simpl.
+  destruct Hin as [<-|Hin].
+  - rewrite Hq, Hp. simpl. pose proof (filter_length_le p q l H). lia.
+  - specialize (IH Hin). destruct (p a) eqn:Ep; [rewrite (H a Ep); simpl; lia|].
+    destruct (q a); simpl; lia.
+Qed.
+
+Section PassLoopExact.
+  Context (g : wgraph) (ows iws sls : list Q) (res : Q) (k : nat).
+  Context (Hwf : wf_wgraph g) (Hsym : wsymmetric g).
+  Context (Hsl : forall i, (i < length g)%nat -> nthq sls i == entry g i i).
+  Context (tol : Q) (Htol : 0 <= tol).
+
+  (** number of objective values strictly above x *)
+  Definition above (x : Q) : nat :=
+    length (filter (fun v => Qltb x v) (map (objective g ows iws res) (all_labelings (length g) k))).
+
+  Lemma above_le x : (above x <= k ^ length g)%nat.
+  Proof.
+    unfold above. etransitivity; [apply filter_length_all|]. rewrite map_length, all_labelings_length. lia.
+  Qed.
+
+  Lemma above_decr st x :
+    kinv g ows iws k st -> x < objective g ows iws res (k_labels st) ->
+    (above (objective g ows iws res (k_labels st)) < above x)%nat.
+  Proof.
+    intros Hinv Hlt. unfold above. set (y := objective g ows iws res (k_labels st)) in *.
+    apply (filter_length_lt _ _ _ y).
+    - intros v Hv. apply Qltb_lt in Hv. apply Qltb_lt. lra.
+    - apply in_map. rewrite <- (ki_labels _ _ _ _ _ Hinv). apply all_labelings_In.
+      apply Forall_forall. intros c Hc. apply (In_nth _ _ 0%nat) in Hc. destruct Hc as [i [Hi <-]].
+      apply (ki_lt _ _ _ _ _ Hinv). rewrite <- (ki_labels _ _ _ _ _ Hinv). exact Hi.
+    - apply Qltb_lt. exact Hlt.
+    - destruct (Qltb y y) eqn:E; [|reflexivity]. apply Qltb_lt in E. lra.
+  Qed.
+
+  Lemma opt_loop_terminates_exact : forall fuel st inc,
+    kinv g ows iws k st ->
+    (above (objective g ows iws res (k_labels st)) < fuel)%nat ->
+    exists st' inc', opt_loop fuel g ows iws sls res tol st inc = Some (st', inc').
+  Proof.
+    induction fuel as [|f IH]; intros st inc Hinv Hf; [lia|].
+    cbn [opt_loop].
+    destruct (one_pass_ok g ows iws sls res k Hwf Hsym Hsl st Hinv) as [P1 [P2 [P3 P4]]].
+    set (st1 := one_pass g ows iws sls res st) in *.
+    destruct (Qle_bool (k_inc_pass st1) tol) eqn:E.
+    - eexists. eexists. reflexivity.
+    - assert (Hlt : tol < k_inc_pass st1).
+      { destruct (Qlt_le_dec tol (k_inc_pass st1)) as [H|H]; [exact H|].
+        apply Qle_bool_iff in H. congruence. }
+      apply IH.
+      + apply (kinv_same g ows iws k st1); auto.
+      + cbn [k_labels]. unfold obj in P2.
+        assert (Hd : (above (objective g ows iws res (k_labels st1))
+                      < above (objective g ows iws res (k_labels st)))%nat).
+        { apply above_decr; [exact P1|lra]. }
+        lia.
+  Qed.
+End PassLoopExact.
+
+(** optimize_core with tol >= 0 (in particular tol = 0) in exact arithmetic: k^n + 1 passes suffice,
+    k = number of cluster slots, n = number of nodes. *)
+Lemma optimize_terminates_exact fuel g ows iws res tol labels ocw icw mg :
+  wf_wgraph g -> wsymmetric g ->
+  length labels = length g -> length ocw = length icw ->
+  (forall x, (x < length g)%nat -> (lab labels x < length ocw)%nat) ->
+  (forall c, (c < length ocw)%nat -> nthq ocw c == csum g labels ows c) ->
+  (forall c, (c < length ocw)%nat -> nthq icw c == csum g labels iws c) ->
+  0 <= tol ->
+  (S (length ocw ^ length g) <= fuel)%nat ->
+  exists st inc, optimize fuel g ows iws res tol labels ocw icw mg = Some (st, inc).
+Proof.
+  intros Hwf Hsym Hlen Hoi Hlt Hocw Hicw Htol Hf. unfold optimize.
+  set (st0 := {| k_labels := labels; k_out_cw := ocw; k_in_cw := icw;
+                 k_cw := repeat 0 (length ocw); k_inc_pass := 0; k_margin := mg |}).
+  assert (H0 : kinv g ows iws (length ocw) st0).
+  { constructor; cbn [st0 k_labels k_out_cw k_in_cw k_cw]; auto.
+    - apply repeat_length.
+    - intros c Hc. rewrite nthq_repeat by exact Hc. reflexivity. }
+  apply (opt_loop_terminates_exact g ows iws (diagonal g) res (length ocw) Hwf Hsym
+           (fun i Hi => diagonal_nth g i Hi) tol Htol fuel st0 0 H0).
+  pose proof (above_le g ows iws res (length ocw) (objective g ows iws res (k_labels st0))). lia.
+Qed.
+
+(** * Executable checks for examples *)
+Definition wsymmetricb (g : wgraph) : bool :=
+  forallb (fun i => forallb (fun j => Qeq_bool (entry g i j) (entry g j i)) (seq 0 (length g)))
+          (seq 0 (length g)).
+Lemma wsymmetricb_ok g : wsymmetricb g = true -> wsymmetric g.
+Proof.
+  unfold wsymmetricb. rewrite forallb_forall. intros H i j Hi Hj.
+  specialize (H i). rewrite in_seq in H. specialize (H (conj (Nat.le_0_l i) Hi)).
+  rewrite forallb_forall in H. specialize (H j). rewrite in_seq in H.
+  apply Qeq_bool_iff. apply H. lia.
+Qed.
